@@ -370,6 +370,16 @@ func Run(r *mon.Run) {
 			q := reqs[rng.Intn(len(reqs))]
 			exec(r, e, &Case{Patterns: set, Extra: extra, URLPath: o + q.Path, Req: q})
 		}
+		if !prefixes[""] {
+			// the bare routes themselves are outside every prefix when "/"
+			// is not mounted: they must not be served either
+			for _, q := range reqs {
+				if !r.Thorough() && rng.Intn(2) != 0 {
+					continue
+				}
+				exec(r, e, &Case{Patterns: set, Extra: extra, URLPath: q.Path, Req: q})
+			}
+		}
 		for _, p := range extra {
 			u := p
 			if strings.HasSuffix(p, "/") {
